@@ -85,6 +85,8 @@ def gen_source(rng, cfg):
         if rng.random() < 0.3:
             extra += ["edge_nodes", rng.choice(["edge_lonlat", "edge_xyz"])]
         spec["dialect"] = {"lon360": rng.random() < 0.3, "extra": extra, "edge_flip": rng.random() < 0.5, "int_coords": rng.random() < 0.3}
+        if extra and rng.random() < 0.3:
+            spec["dialect"]["xyz_scale"] = rng.choice([2.0, 10.0, 6371.0])  # Cartesian positions in the source's own length unit
         if spec["dialect"]["int_coords"]:
             spec["jitter"] = 0.0  # whole-degree meshes only stay whole without jitter
     elif r < 0.7:
@@ -145,6 +147,8 @@ class Trees(Profile):
                 q["points"] = [list(rng.choice(POINTS)) for _ in range(npts)]
                 if rng.random() < 0.3:
                     q["points"][0] = {"elem": rng.randrange(1000)}  # a query point that IS an element
+                    if rng.random() < 0.3:
+                        q["points"][0]["anti"] = True  # ... or the antipode of one
                 q["in_radians"] = rng.random() < 0.35
                 prev = [o for o in ops if o["op"] in ("query", "radius")]
                 if prev and rng.random() < 0.45:
@@ -160,6 +164,11 @@ class Trees(Profile):
                     q["reuse"] = True
                 if rng.random() < 0.65:
                     q["op"] = "query"
+                    if isinstance(q["points"][0], dict) and q["points"][0].get("anti"):
+                        # seen from the antipode all elements are nearly equidistant (d = 2 - O(angle^2)):
+                        # "nearest first" is decided by rounding there, so antipodes only feed radius queries
+                        q["points"] = [dict(q["points"][0])] + q["points"][1:]
+                        q["points"][0].pop("anti")
                     q["k"] = rng.choice([1, 1, 2, 3, 5, "n", "n-1"])
                     q["return_distance"] = rng.random() < 0.8
                 else:
@@ -168,6 +177,9 @@ class Trees(Profile):
                     q["mode"] = rng.choice(["ind", "dist", "count", "dist_sorted"])
                     if isinstance(q["points"][0], dict) and rng.random() < 0.35:
                         q["r"] = 0.0  # closed ball of radius zero centred on an element
+                    if isinstance(q["points"][0], dict) and q["points"][0].get("anti") and rng.random() < 0.7:
+                        # just short of the whole sphere: everything but the antipodal element
+                        q["r"] = rng.choice([179.999, 179.99]) if q.get("csys", "x") == "spherical" or q["type"] == "ball" and "csys" not in q else rng.choice([1.99, 1.9999])
                 ops.append(q)
         return {"sources": sources, "ops": ops}
 
@@ -365,12 +377,29 @@ class Trees(Profile):
             return ("tree-params",), vs
         elon, elat, exyz = self.elements(W, coords, g)
         n = len(elon)
+        if csys == "cartesian":
+            # a Cartesian tree is built from the stored positions whatever their length: chord
+            # lengths are judged against those (a source in km stays in km)
+            sh = W.source("g0").shipped
+            pre = {"nodes": "node", "face centers": "face", "edge centers": "edge"}[coords]
+            scale = float((W.source("g0").spec.get("dialect") or {}).get("xyz_scale", 1.0))
+            if all(f"{pre}_{a}" in sh for a in "xyz"):
+                stored = np.stack([np.asarray(sh[f"{pre}_{a}"], dtype=float) for a in "xyz"], axis=-1)
+                if stored.shape == exyz.shape and scale != 1.0:
+                    exyz = stored
+            elif scale != 1.0:
+                W.cov["judged"] += 0
+                return ("not-judged", "derived centres of a non-unit source"), []
         # query points
         pts = []
         for p in op["points"]:
             if isinstance(p, dict):
                 j = p["elem"] % n
-                pts.append((float(elon[j]), float(elat[j])))
+                if p.get("anti"):
+                    lo_a = float(elon[j]) + 180.0
+                    pts.append((lo_a - 360.0 if lo_a > 180.0 else lo_a, -float(elat[j])))
+                else:
+                    pts.append((float(elon[j]), float(elat[j])))
             else:
                 pts.append((float(p[0]), float(p[1])))
         inrad = bool(op.get("in_radians"))
@@ -466,7 +495,7 @@ class Trees(Profile):
                 pspec = op["points"][pi]
                 sh_ = W.source("g0").shipped
                 stored64 = "node_lon" in sh_ and sh_["node_lon"].dtype.kind in "iu" or ("node_lon" in sh_ and sh_["node_lon"].dtype == np.float64 and sh_["node_lat"].dtype == np.float64)
-                if isinstance(pspec, dict) and coords == "nodes" and csys == "spherical" and metric == "haversine" and stored64 and not W.source("g0").spec.get("dialect", {}).get("lon360"):
+                if isinstance(pspec, dict) and not pspec.get("anti") and coords == "nodes" and csys == "spherical" and metric == "haversine" and stored64 and not W.source("g0").spec.get("dialect", {}).get("lon360"):
                     # the query point is bit-identical to a stored node position: its distance is
                     # exactly 0 <= r for every r >= 0 (the ball is closed) - not a tie
                     must.add(pspec["elem"] % n)
